@@ -24,8 +24,8 @@ TRUSTED = [
 ]
 THEOREMS = ['grid_of_world', 'cols_partition', 'rows_partition', 'row_col_singleton', 'inv_workers_in_one_column',
             'src_is_worker_in_my_row', 'broadcast_flags', 'fraction_accepted_partial', 'kaisa_function_in_relation']
-NOTES = ('fraction_accepted_partial is the bounded form (W <= 4096) of "every k/W is accepted"; the unbounded '
-         'statement over IEEE rounding error is not proved.')
+NOTES = ('fraction_accepted proves "every k/W is accepted" for every world size below 2^31 over IEEE binary64 (Flocq); '
+         'fraction_accepted_partial (W <= 4096, vm_compute sweep) stays as an independent axiom-light check.')
 
 
 def divisors(W):
